@@ -117,7 +117,9 @@ def run(module, cfg=None, workers=16, dump=False, simulate=None, depth=None, see
     if res.violated and allow_violation:
         return res
     if not clean or res.violated:
-        tail = "\n".join(out.splitlines()[-40:])
+        lines = out.splitlines()
+        key = [l[:400] for l in lines if l.startswith("Error:") or "Overflow" in l or "Attempted" in l or "is violated" in l or "was not in the domain" in l][:8]
+        tail = "\n".join(key + ["..."] + [l[:300] for l in lines[-12:]])
         raise TLCFailure("TLC did not finish cleanly (%s)\n%s\n%s" % (res.violated or "rc=%d" % p.returncode, cmd, tail))
     return res
 
